@@ -5,7 +5,7 @@
 //
 // Environment: VNODE_PERTURB=<seed> installs PRNG delays at every verifhook point;
 // VNODE_DELAY_AT=<hook point>:<ms> sleeps at one hook point;
-// VNODE_LOG=<level> sets frp's log level (stderr). SIGTERM stops the node gracefully.
+// VNODE_NOFILE=<n> lowers the descriptor limit; VNODE_LOG=<level> sets frp's log level (stderr). SIGTERM stops the node gracefully.
 package main
 
 import (
@@ -47,6 +47,12 @@ func main() {
 		if i := strings.LastIndexByte(s, ':'); i > 0 {
 			ms, _ := strconv.Atoi(s[i+1:])
 			h.OnHook(s[:i], "", func(string, []any) { time.Sleep(time.Duration(ms) * time.Millisecond) })
+		}
+	}
+	// VNODE_NOFILE=<n> lowers this process's descriptor limit (descriptor exhaustion as a fault: accept fails with EMFILE)
+	if s := os.Getenv("VNODE_NOFILE"); s != "" {
+		if n, err := strconv.ParseUint(s, 10, 64); err == nil && n > 0 {
+			_ = syscall.Setrlimit(syscall.RLIMIT_NOFILE, &syscall.Rlimit{Cur: n, Max: n})
 		}
 	}
 	ctx, cancel := context.WithCancel(context.Background())
